@@ -1,5 +1,6 @@
 import Labella.Driver.Parse
 import Labella.Model.QP
+import Labella.Model.Vpsc
 /-! driver command `qp` (C05) -/
 namespace Labella.Driver
 open Labella Labella.Parse Labella.QP
@@ -37,11 +38,54 @@ def qpCmd (f : List String) : Option String :=
     let feas := feasibleB Iunflagged tau x
     let costOK := decide (ratAbs (rc - cx) ≤ scaleTol * 1000)
     -- certificate: accepted ⇒ xs is optimal up to scaleTol among ALL feasible points (Props/C05.check_sound)
+    let cert0 := !xs.isEmpty && check I xs ls (1 / 1000000000) scaleTol
+    -- when the supplied hint does not certify (e.g. it came from a solver that no longer splits), try the transliterated
+    -- solver's own result continued until a pass performs no split.  Hints are untrusted: only `check` decides.
+    let hint2 : List Rat × List Rat :=
+      if cert0 || xs.isEmpty then (xs, ls)
+      else
+        let st0 := Vpsc.init (I.vars.map fun v => (v.d, v.w, v.s)) (I.cons.map fun c => (c.l, c.r, c.g))
+        let st := Vpsc.polish 60 (200 * (I.cons.length + I.vars.length) + 1000) (Vpsc.solve 400 (200 * (I.cons.length + I.vars.length) + 1000) st0).1
+        if st.err then (xs, ls) else (Vpsc.positions st, Vpsc.multipliers st)
+    let xs := hint2.1
+    let ls := hint2.2
     let cert := !xs.isEmpty && check I xs ls (1 / 1000000000) scaleTol
     let opt := if xs.isEmpty then "na" else if !cert then "nocert" else okQ (decide (cx ≤ cost I xs + scaleTol * 1000))
     -- lower bound straight from the multipliers, independent of xs
     let dualOK := xs.isEmpty || decide (dualValue I (clip ls) ≤ cx + scaleTol * 1000)
-    some s!"qp feasible={okQ feas} cost={okQ costOK} optimal={opt} dual={okQ dualOK} n={I.vars.length} m={I.cons.length} flagged={unsat.length}"
+    some s!"qp feasible={okQ feas} cost={okQ costOK} optimal={opt} dual={okQ dualOK} n={I.vars.length} m={I.cons.length} flagged={unsat.length} hint={if cert0 then "supplied" else if cert then "model" else "none"}"
+  | _ => none
+
+end Labella.Driver
+
+namespace Labella.Driver
+open Labella Labella.Parse Labella.QP
+
+/-- the transliterated solver (Model/Vpsc.lean) on an instance: final state and returned cost -/
+def runVpsc (I : Inst) : Vpsc.St × Rat :=
+  let st0 := Vpsc.init (I.vars.map fun v => (v.d, v.w, v.s)) (I.cons.map fun c => (c.l, c.r, c.g))
+  Vpsc.solve 400 (200 * (I.cons.length + I.vars.length) + 1000) st0
+
+/-- `vpsc|vars|cons|x|returnedCost|unsat` — exact-mode correspondence of `vpsc.Solver.solve` (run on Fractions by the
+harness) with the transliteration: positions, returned cost and the set of constraints flagged unsatisfiable must
+be EQUAL.  `same=na` when the model ran out of fuel (the harness's watchdog covers the implementation side). -/
+def vpscCmd (f : List String) : Option String :=
+  match f with
+  | [vars, cons, x, rc, unsat] => do
+    let I : Inst := { vars := ← parseList ";" parseVar vars, cons := ← parseList ";" parseCon cons }
+    let x ← parseList "," parseRat x
+    let rc ← parseRat rc
+    let unsat ← parseList "," parseNat unsat
+    let r := runVpsc I
+    let st := r.1
+    if st.err then some s!"vpsc same=na feasible=na n={I.vars.length} m={I.cons.length} flagged={unsat.length} blocks=0"
+    else
+      let mx := Vpsc.positions st
+      let same := mx == x && r.2 == rc && Vpsc.flagged st == unsat
+      -- the model's own result satisfies every constraint it has not flagged (Props/C05: satisfy_feasible) — evaluated here too
+      let Iun : Inst := { I with cons := (I.cons.zipIdx.filter (fun p => !(Vpsc.flagged st).contains p.2)).map (·.1) }
+      let feas := feasibleB Iun (-Gen.zeroUpperBound) mx
+      some s!"vpsc same={okQ same} feasible={okQ feas} n={I.vars.length} m={I.cons.length} flagged={unsat.length} blocks={st.list.size}"
   | _ => none
 
 end Labella.Driver
